@@ -43,14 +43,19 @@ Seps == <<" ", "  ", " /* c */ ", "\n ">>          \* separators between the tok
 Wraps == {0, 1, 2}                                  \* number of balanced parenthesis pairs around the whole expression
 Aliases == {"", "x", "kk"}
 
+\* identifiers (column, function and alias names) may be written in any letter case: the parser folds them, so a bare
+\* column is named by the (lower-case) column name, while an expression is named by its source text AS WRITTEN
+UpMap == [k |-> "K", v |-> "V", s |-> "S", upper |-> "Upper", coalesce |-> "COALESCE", count |-> "Count", sum |-> "SUM",
+          max |-> "Max", first |-> "FIRST", x |-> "X", kk |-> "Kk"]
+Tok(up, w) == IF up /\ w \in DOMAIN UpMap THEN UpMap[w] ELSE w
 \* text of the expression with separator choice `sp` (index into Seps) between tokens
-RECURSIVE Join(_, _, _)
-Join(toks, sp, i) == IF i > Len(toks) THEN "" ELSE (IF i = 1 THEN "" ELSE Seps[sp]) \o toks[i] \o Join(toks, sp, i + 1)
-Inner(t) == Join(Shapes[t.shape].toks, t.sp, 1)
+RECURSIVE Join(_, _, _, _)
+Join(toks, sp, i, up) == IF i > Len(toks) THEN "" ELSE (IF i = 1 THEN "" ELSE Seps[sp]) \o Tok(up, toks[i]) \o Join(toks, sp, i + 1, up)
+Inner(t) == Join(Shapes[t.shape].toks, t.sp, 1, t.up)
 RECURSIVE Wrap(_, _)
 Wrap(txt, n) == IF n = 0 THEN txt ELSE "(" \o " " \o Wrap(txt, n - 1) \o " " \o ")"
 \* what is written in the statement for this target (leading / trailing separators are added by the layout)
-Written(t) == Wrap(Inner(t), t.wrap) \o (IF t.as = "" THEN "" ELSE " AS " \o t.as)
+Written(t) == Wrap(Inner(t), t.wrap) \o (IF t.as = "" THEN "" ELSE " AS " \o Tok(t.up, t.as))
 \* the name rule
 NameOf(t) == IF t.as # "" THEN t.as
              ELSE IF Shapes[t.shape].bare THEN Shapes[t.shape].toks[1]
@@ -70,7 +75,7 @@ Wildcard(kind, cols) ==
 
 VARIABLES targets, helper
 vars == <<targets, helper>>
-TargetSpace == [shape : 1..Len(Shapes), sp : 1..Len(Seps), wrap : Wraps, as : Aliases]
+TargetSpace == [shape : 1..Len(Shapes), sp : 1..Len(Seps), wrap : Wraps, as : Aliases, up : BOOLEAN]
 \* bare columns cannot be aliased-away from their rule and an aggregate query needs groupable targets: keep all
 Init == targets = <<>> /\ helper \in 1..Len(Helpers)
 Next == /\ Len(targets) < MaxTargets
